@@ -240,7 +240,11 @@ def h_switch(ctx, n, big=False, real_switch=False, shape=None):
     sel = g.send(([], [], []))
     # a later TCP segment on connection A (a well-formed echo request): a connection that was closed because of what it received stays
     # closed - nothing is decoded from bytes that follow; a connection that was served and has nothing buffered decodes it normally
-    closedA = wA.closed or wA._shutdown_send; n0 = len(got[0]); restA = wA.receive_buf; rest0 = len(restA); sent0 = len(wA.send_buf)
+    # (the loop gets the chance to write out what connection A has queued - an error reply, and the shutdown that follows it)
+    for _ in range(3):
+      if wA in loop._workers and wA._ready_to_send and not socks[0].closed: sel = g.send(([], [wA], []))
+    # closed means closed: the socket was shut down or closed - a connection merely *marked* for shutdown stays open for its peer
+    closedA = wA.closed or socks[0].closed or socks[0].shut; n0 = len(got[0]); restA = wA.receive_buf; rest0 = len(restA); sent0 = len(wA.send_buf)
     nsp0 = len(conns[0].unpackers.spans)
     if not big and wA in loop._workers and not socks[0].closed and (closedA or rest0 == 0):
       later = True
